@@ -12,6 +12,10 @@ import (
 	"verif/harness/hx"
 )
 
+// ValueOracle: compare the float values of the frame operations with the independent computation
+// (property C03).  C02 is about well-formedness only and switches it off.
+var ValueOracle = true
+
 // StepDesc is the replayable input of one "op" / "frame" case: the projected input meshes and the call.
 type StepDesc struct {
 	Ins []Desc `json:"ins"`
@@ -144,7 +148,7 @@ func OpCase(sd StepDesc) (c hx.Case, outs []Desc, class string) {
 	for _, m := range res {
 		p, err := Project(m)
 		if err != nil {
-			c.GoFail = "exact operation " + sd.Op.Op + " returned a non-integer value: " + err.Error()
+			c.GoFail = "exact operation " + sd.Op.Op + " returned a value outside the exact domain: " + err.Error()
 		}
 		outs = append(outs, p)
 	}
@@ -382,7 +386,7 @@ func FrameCase(sd StepDesc) hx.Case {
 		if present {
 			klen = fmt.Sprintf("(Some %d%%nat)", len(got))
 		}
-		if want := expectedValues(sd); want != nil && present && c.GoFail == "" {
+		if want := expectedValues(sd); ValueOracle && want != nil && present && c.GoFail == "" {
 			if len(want) != len(got) {
 				c.GoFail = fmt.Sprintf("%s: %d values, expected %d", sd.Op.Op, len(got), len(want))
 			} else {
@@ -452,7 +456,7 @@ func LawCase(ld LawDesc) hx.Case {
 	px, e1 := Project(x)
 	py, e2 := Project(y)
 	if e1 != nil || e2 != nil {
-		c.GoFail = "law " + ld.Law + ": non-integer value"
+		c.GoFail = "law " + ld.Law + ": non-integer value or negative index"
 	}
 	names.AddDesc(px, py)
 	names.Freeze()
